@@ -18,6 +18,7 @@ type Opts struct {
 	MaskRunAsParent   bool // do not print WhenContext.RunAsParent
 	MaskModuleOf      func(path string) bool
 	NoModelAttrs      bool // skip per-module identifier/namespace/features/deviations
+	ChoiceNS          bool // also print namespace and module of choices and cases
 	NoDeviations      bool // skip Model.Deviations()
 	NoFeatures        bool
 	SortIdentities    bool // identities of an identityref as a set
@@ -334,6 +335,9 @@ func (d *dumper) choiceTree(depth int, path string, n schema.Node) {
 	extra := ""
 	if c, ok := n.(schema.Choice); ok {
 		extra = fmt.Sprintf(" defaultcase=%q", c.DefaultCase())
+	}
+	if d.o.ChoiceNS {
+		extra += fmt.Sprintf(" ns=%q module=%q", n.Namespace(), n.Module())
 	}
 	d.line(depth, "~%s %s/%s config=%v status=%s mandatory=%v desc=%q%s", kind, path, n.Name(), n.Config(), statusString(n.Status()), n.Mandatory(), n.Description(), extra)
 	for _, w := range n.Whens() {
